@@ -24,6 +24,8 @@ impl Disc {
 }
 
 pub struct Pred {
+    /// failures met by the reference before each trace entry
+    pub fail_before: Vec<usize>,
     pub ok: bool,
     pub responses: Vec<Resp>,
     pub trace: Vec<TraceEntry>,
@@ -174,8 +176,10 @@ pub fn compare_traces(pred: &Pred, act: &Actual, top_ok_and_events_agree: Option
             } else {
                 "own balance at entry"
             };
+            // after a failure earlier in the same call a wrong balance may as well be a missing rollback
+            let suspect_rollback = field == "own balance at entry" && pred.fail_before.get(i).copied().unwrap_or(0) > 0;
             return Some(Disc::new(
-                &["C05"],
+                if suspect_rollback { &["C02", "C05"] } else { &["C05"] },
                 format!("trace:{}", field.replace(' ', "-")),
                 format!("trace position {} ({}): {} differs: expected {:?}/{:?}/{:?}/{:?}/{:?}, contract saw {:?}/{:?}/{:?}/{:?}/{:?}", i, entry_brief(p), field, p.contract, p.sender, p.funds, p.block, p.own_balance, a.contract, a.sender, a.funds, a.block, a.own_balance),
             ));
@@ -216,10 +220,10 @@ pub fn compare_traces(pred: &Pred, act: &Actual, top_ok_and_events_agree: Option
             return Some(Disc { owners, sig: "reply:content".into(), msg: format!("trace position {} ({}): Reply carries events [{}] data {:?}; the sub-message produced events [{}] data {:?}", i, entry_brief(p), events_str(&ar.events), ar.data.as_deref().map(hexs), events_str(&pr.events), pr.data.as_deref().map(hexs)), model_free: false });
         }
         if p.reads != a.reads {
-            return Some(Disc::new(&["C02", "C08"], "trace:reads", format!("trace position {} ({}): storage reads differ: contract saw {:?}, expected {:?}", i, entry_brief(p), a.reads, p.reads)));
+            return Some(Disc::new(if pred.fail_before.get(i).copied().unwrap_or(0) > 0 { &["C02", "C08"] } else { &["C08", "C01"] }, "trace:reads", format!("trace position {} ({}): storage reads differ: contract saw {:?}, expected {:?}", i, entry_brief(p), a.reads, p.reads)));
         }
         if p.pre_queries != a.pre_queries || p.queries != a.queries {
-            return Some(Disc::new(&["C10"], "trace:query-results", format!("trace position {} ({}): query results differ: contract was told {:?} / {:?}, state at that point gives {:?} / {:?}", i, entry_brief(p), a.pre_queries, a.queries, p.pre_queries, p.queries)));
+            return Some(Disc::new(if pred.fail_before.get(i).copied().unwrap_or(0) > 0 { &["C02", "C10"] } else { &["C10"] }, "trace:query-results", format!("trace position {} ({}): query results differ: contract was told {:?} / {:?}, state at that point gives {:?} / {:?}", i, entry_brief(p), a.pre_queries, a.queries, p.pre_queries, p.queries)));
         }
         return Some(Disc::new(&["C02"], "trace:entry", format!("trace position {} differs: {:?} vs {:?}", i, p, a)));
     }
